@@ -32,6 +32,7 @@ import (
 	"sync"
 	"unicode"
 
+	"github.com/XiaoMi/Gaea/models"
 	"github.com/XiaoMi/Gaea/parser"
 	"github.com/XiaoMi/Gaea/parser/ast"
 
@@ -227,6 +228,10 @@ type caseT struct {
 	SQL       string `json:"sql"`    // the decorated statement as sent (prepared: with ? placeholders)
 	Base      string `json:"base"`   // the plain statement the decoration was applied to
 	Parses    bool   `json:"parses"` // Gaea's parser accepts the decorated text
+	// transport "history" only: the user's rw_flag when the open session shook hands, and the
+	// steps (reload:ro | reload:rw | open:<stmt> | new:<stmt>) applied in order
+	Init string   `json:"init,omitempty"`
+	Hist []string `json:"hist,omitempty"`
 }
 
 type classT struct {
@@ -239,6 +244,8 @@ var classCache = map[string]classT{}
 type worker struct {
 	w  *rig.World
 	ns map[string]string // ns kind -> namespace name
+	// rw_flag currently configured for the two users of the history namespace ("rw" | "ro")
+	histFlag map[string]string
 }
 
 type outcome struct {
@@ -250,8 +257,180 @@ type outcome struct {
 	Desc      string
 }
 
+// ---------------------------------------------------------------- histories with namespace reloads
+
+// Statements a history can send. The prepared INSERT is prepared when the open session is
+// created, i.e. possibly under another rw_flag than the one in force when it is executed.
+var histStmts = map[string]struct {
+	sql string
+	mod bool
+}{
+	"insert":        {"insert into tc (id, v) values (1, 'a')", true},
+	"drop-table":    {"drop table tc", true},
+	"exec-prepared": {"insert into tc (id, v) values (?, 'a')", true},
+	"select":        {"select id, v from tc where id = 1", false},
+}
+
+var histSteps = []string{"reload:ro", "reload:rw", "open:insert", "open:drop-table", "open:exec-prepared", "open:select", "new:insert", "new:select"}
+
+func flagValue(f string) int {
+	if f == "ro" {
+		return 1 // models.ReadOnly
+	}
+	return 2 // models.ReadWrite
+}
+
+// setFlag reloads the history namespace (real ReloadNamespacePrepare + ReloadNamespaceCommit)
+// with the rw_flag of user set to f; the other users keep their current flags.
+func (wk *worker) setFlag(user, f string) {
+	next := map[string]string{}
+	for k, v := range wk.histFlag {
+		next[k] = v
+	}
+	next[user] = f
+	err := wk.w.Reload(wk.ns["hist"], func(cfg *models.Namespace) {
+		for u, fl := range next {
+			split := 0
+			if u == rig.RwSplit {
+				split = 1
+			}
+			rig.SetUserFlags(cfg, u, flagValue(fl), split)
+		}
+	})
+	if err != nil {
+		ev.Fatalf("reload: %v", err)
+	}
+	wk.histFlag = next
+}
+
+// runHistory: one user whose rw_flag is changed by namespace reloads while a session that
+// shook hands under the initial flag stays open. Every statement is judged against the flag of
+// the CURRENT namespace configuration: read-only now => a modifying statement is rejected
+// before any backend, whatever the flag was when the session (or the prepared statement) was
+// created. The reverse direction (read-write now, statement refused) is not part of the
+// property; it is counted and reported only.
+func runHistory(r *ev.Run, wk *worker, c caseT) outcome {
+	var o outcome
+	ns := wk.ns["hist"]
+	if wk.histFlag[c.User] != c.Init {
+		wk.setFlag(c.User, c.Init)
+	}
+	open, err := wk.w.NewSession(ns, c.User, rig.CapsBase)
+	if err != nil {
+		ev.Fatalf("session: %v", err)
+	}
+	defer open.Close()
+	pid, pn, prep := open.Prepare(histStmts["exec-prepared"].sql)
+	prepared := !(prep.Closed || prep.AnyErr)
+	cur := c.Init
+	r.Add("evaluations", 1)
+	r.Add("histories", 1)
+	var trace []string
+	for i, st := range c.Hist {
+		parts := strings.SplitN(st, ":", 2)
+		if parts[0] == "reload" {
+			wk.setFlag(c.User, parts[1])
+			cur = parts[1]
+			trace = append(trace, st)
+			continue
+		}
+		hs, ok := histStmts[parts[1]]
+		if !ok {
+			ev.Fatalf("history step %q", st)
+		}
+		var rep rig.Reply
+		sess, handshake := "open", c.Init
+		switch {
+		case parts[0] == "new":
+			sess, handshake = "fresh", cur
+			fs, err := wk.w.NewSession(ns, c.User, rig.CapsBase)
+			if err != nil {
+				ev.Fatalf("session: %v", err)
+			}
+			rep = fs.Query(hs.sql)
+			fs.Close()
+		case parts[1] == "exec-prepared":
+			if !prepared {
+				rep = prep
+				rep.Err = true
+				rep.Events = nil
+			} else {
+				rep = open.Execute(pid, pn)
+			}
+		default:
+			rep = open.Query(hs.sql)
+		}
+		rejected := rep.Err || rep.Closed
+		reached := rig.Execs(rep.Events)
+		gets := rig.Count(rep.Events, "get")
+		served := "none"
+		if len(reached) > 0 {
+			served = reached[0].Class
+		} else if gets > 0 {
+			served = "get-only"
+		}
+		trace = append(trace, fmt.Sprintf("%s[%s:rejected=%v,reached=%s]", st, cur, rejected, served))
+		r.Add("history_statements", 1)
+		r.Distinct("outcomes", fmt.Sprintf("history|%s|%s|handshake=%s|now=%s|rejected=%v|%s", sess, parts[1], handshake, cur, rejected, served))
+		if !hs.mod {
+			if !rejected && len(reached) > 0 {
+				r.Add("reads_served", 1)
+			}
+			continue
+		}
+		if cur == "rw" {
+			if rejected {
+				r.Add("history_rw_user_write_refused", 1) // observed, not judged
+			} else if len(reached) > 0 {
+				r.Add("history_rw_user_write_executed", 1)
+				if sess == "open" && handshake == "ro" {
+					r.Add("history_open_session_gained_write", 1)
+				}
+			}
+			continue
+		}
+		r.Add("modifying_cases", 1)
+		if rejected && len(reached) == 0 && gets == 0 {
+			r.Distinct("nontrivial", fmt.Sprintf("history|%s|%s|%s|%d|%s", c.User, c.Init, strings.Join(c.Hist, ","), i, st))
+			if sess == "open" && handshake == "rw" {
+				r.Add("history_open_session_lost_write", 1)
+			}
+			continue
+		}
+		outc := "executed-on-" + served
+		if len(reached) == 0 && gets > 0 {
+			outc = "connection-taken"
+		} else if len(reached) == 0 {
+			outc = "accepted-not-executed"
+		} else if rejected {
+			outc = "error-after-" + outc
+		}
+		o.Desc = outc
+		r.Violation(ev.Witness{
+			Summary: fmt.Sprintf("user %s is read-only in the current namespace configuration (rw_flag at the open session's handshake: %s; history %s): step %d %s %q -> %s",
+				c.User, c.Init, strings.Join(c.Hist, ", "), i+1, st, hs.sql, outc),
+			Features: map[string]string{
+				"kind": parts[1], "preview": previewName(strings.ReplaceAll(hs.sql, "?", "1")),
+				"lead": "none", "case": "lower", "after": "blank", "parses": "true",
+				"transport": "history", "user": c.User, "ns": "history", "table": "tc",
+				"outcome": outc, "session": sess, "flag_at_handshake": handshake, "flag_now": cur,
+			},
+			Case: c,
+		})
+	}
+	o.Modifying = true
+	if o.Desc == "" {
+		o.Desc = "history ok"
+	}
+	o.ErrMsg = strings.Join(trace, " ; ")
+	return o
+}
+
 func runCase(r *ev.Run, wk *worker, c caseT) outcome {
 	var o outcome
+	if c.Transport == "history" {
+		return runHistory(r, wk, c)
+	}
 	// reference classification: AST of the decorated text; where the parser cannot read a
 	// whitespace/comment/case-only decoration, AST of the plain statement it decorates
 	ref := c.SQL
@@ -381,7 +560,8 @@ func newWorker(i int) *worker {
 		{Name: fmt.Sprintf("norules%d", i), Rules: false, CheckSelectLock: true, MultiQuery: true},
 		{Name: fmt.Sprintf("rules%d", i), Rules: true, CheckSelectLock: true, MultiQuery: true},
 	}
-	return &worker{ns: map[string]string{"norules": specs[0].Name, "rules": specs[1].Name}}
+	return &worker{ns: map[string]string{"norules": specs[0].Name, "rules": specs[1].Name, "hist": fmt.Sprintf("hist%d", i)},
+		histFlag: map[string]string{rig.RwSplit: "rw", rig.RwNoSplit: "rw"}}
 }
 
 func main() {
@@ -396,7 +576,8 @@ func main() {
 		wks = append(wks, wk)
 		specs = append(specs,
 			rig.NSSpec{Name: wk.ns["norules"], Rules: false, CheckSelectLock: true, MultiQuery: true},
-			rig.NSSpec{Name: wk.ns["rules"], Rules: true, CheckSelectLock: true, MultiQuery: true})
+			rig.NSSpec{Name: wk.ns["rules"], Rules: true, CheckSelectLock: true, MultiQuery: true},
+			rig.NSSpec{Name: wk.ns["hist"], Rules: false, CheckSelectLock: true, MultiQuery: true})
 	}
 	w, err := rig.NewWorld(specs)
 	if err != nil {
@@ -496,6 +677,33 @@ func main() {
 		}
 	}
 
+	// histories with namespace reloads: every sequence of at most 3 (thorough: 4) steps over
+	// {reload the user read-only, reload read-write, 4 statements on the session opened at the
+	// start, 2 statements on a fresh session}, for both initial flags and both rw_split values
+	maxLen := r.Pick(3, 4)
+	nHist := 0
+	enum.Seqs(len(histSteps), 1, maxLen, func(seq []int) {
+		steps := make([]string, len(seq))
+		stmt := false
+		for i, x := range seq {
+			steps[i] = histSteps[x]
+			if !strings.HasPrefix(steps[i], "reload:") {
+				stmt = true
+			}
+		}
+		if !stmt {
+			return // nothing to judge
+		}
+		for _, u := range []string{rig.RwSplit, rig.RwNoSplit} {
+			for _, init := range []string{"rw", "ro"} {
+				all = append(all, caseT{Kind: "history", Lead: "none", Case: "lower", After: "blank", Transport: "history",
+					User: u, NS: "history", Table: "tc", SQL: strings.Join(steps, " ; "), Parses: true, Init: init, Hist: steps})
+				nHist++
+			}
+		}
+	})
+	r.Set("history_cases", nHist)
+
 	var mu sync.Mutex
 	sampled := map[string]bool{}
 	free := make(chan *worker, nWorkers)
@@ -506,7 +714,7 @@ func main() {
 		wk := <-free
 		o := runCase(r, wk, all[i])
 		free <- wk
-		key := fmt.Sprintf("%v/%s", o.Modifying, o.Desc)
+		key := fmt.Sprintf("%v/%s/%v", o.Modifying, o.Desc, all[i].Transport == "history")
 		mu.Lock()
 		if !sampled[key] {
 			sampled[key] = true
@@ -520,6 +728,7 @@ func main() {
 	}
 
 	r.Set("universe", len(all))
+	r.Set("namespace_reloads", w.Reloads())
 	r.Set("decorations", len(decos))
 	r.Set("statement_kinds", len(kinds))
 	r.Set("texts_outside_universe", skipped)
@@ -536,6 +745,9 @@ func main() {
 	// self-tests of the harness; when the run has unexplained violations they are the verdict
 	if r.Violations() > 0 {
 		r.Finish()
+	}
+	if r.Count("history_open_session_lost_write") == 0 || r.Count("history_open_session_gained_write") == 0 {
+		ev.Fatalf("vacuous: reload histories: open sessions that lost write=%d, gained write=%d", r.Count("history_open_session_lost_write"), r.Count("history_open_session_gained_write"))
 	}
 	if r.DistinctN("outcomes") < 3 {
 		ev.Fatalf("vacuous: only %d distinct outcomes", r.DistinctN("outcomes"))
